@@ -108,6 +108,22 @@ def compare_reports(base_rep, var_rep):
     return bad, changed, (b, v)
 
 
+def reldev(a, b):
+    """largest relative deviation between two snapshot values (numbers or equally long lists); inf when not comparable"""
+    if isinstance(a, list) or isinstance(b, list):
+        if not (isinstance(a, list) and isinstance(b, list)) or len(a) != len(b):
+            return math.inf
+        return max((reldev(x, y) for x, y in zip(a, b)), default=0.0)
+    try:
+        if math.isnan(a) and math.isnan(b):
+            return 0.0
+        if a == b:
+            return 0.0
+        return abs(a - b) / max(abs(a), abs(b), 1e-300)
+    except TypeError:
+        return 0.0 if a == b else math.inf
+
+
 def input_task(payload):
     res = check.new_result()
     rn = rel.Runner(res)
@@ -140,6 +156,22 @@ def input_task(payload):
             res['accepted'] += 1
             res['nontrivial'].append(d)
             bad = snap.diff(bb['hook']['out'], o['hook']['out'], 1e-7, 1e-12)
+            if bad:
+                # the variant value is the conversion rounded to 12 significant digits, i.e. the same quantity up to 5e-13; a model that amplifies
+                # such a perturbation beyond 1e-7 (the closed-loop AGS solver does) is judged against its own sensitivity: the declared-unit
+                # value nudged by 1e-12 is run as a control, and a result is excused when it moves no more than 100 x what the control moves
+                ctl_lines = [l for l in lines if l.split(',')[0].strip() != name] + [f'{name}, {v * (1 + 1e-12)!r}']
+                stc, oc = rel.observe(ctl_lines)
+                res['execs'] += 1
+                if stc == 'ok':
+                    ctl = oc['hook']['out']
+                    still = [k for k in bad if k not in ctl or k not in o['hook']['out'] or k not in bb['hook']['out']
+                             or reldev(bb['hook']['out'][k], o['hook']['out'][k]) > 100 * reldev(bb['hook']['out'][k], ctl[k]) + 1e-7]
+                    if not still:
+                        check.bump(res, 'results_differ_within_rounding_sensitivity')
+                        bad = []
+                    else:
+                        bad = still
             if bad:
                 k0 = bad[0]
                 check.fail(res, f'input/results_differ/{ut}/{U}/{name}', f'[{payload["fam_id"]}] "{name}, {vprime} {U}" instead of "{name}, {v}" ({rec["decl"]}) changes {len(bad)} results, '
@@ -240,6 +272,10 @@ def family_list(tier):
     fams.append(('sbt-eavorloop', F.lines(F.sbt_base(3, 31, 1, (3, 2, 1), 5))))     # closed loop: its own length / time / diameter inputs
     from vf.checks import c07
     fams.append(('sutra', c07.file_lines(c07.ex('SUTRAExample1.txt'))))             # the SUTRA writer prints its own cost and energy tables
+    # writers that call the unit conversion more than once before printing: add-on / S-DAC-GT blocks, the closed-loop (AGS) writer on top of the standard one
+    fams.append(('addons-sdacgt', c07.file_lines(c07.ex('example1_addons.txt')) + ['Do S-DAC-GT Calculations, True', 'Plant Lifetime, 6', 'Time steps per year, 2']))
+    if tier == 'thorough':
+        fams.append(('ags-wangju', c07.file_lines(c07.ex('Wanju_Yuan_Closed-Loop_Geothermal_Energy_Recovery.txt'))))
     return fams
 
 
